@@ -203,3 +203,12 @@ Theorem C03_src_check_options_is_model :
   Struct_Options_Proofs.interp_check_options m od odu ond ondu r = Some (check_options m od odu ond ondu r).
 Proof. exact Struct_Options_Proofs.interp_check_options_is_model. Qed.
 Print Assumptions C03_src_check_options_is_model.
+
+(* `validate_options` itself (Generated.ValidateGen: start values, the if-chain of the scan as a
+   decision list with its assignments, the two rejections after the scan in source order) IS the
+   model's validate_options for every option list: the whole list is scanned before anything is
+   rejected, so the order in which `csp` and a type option are written does not matter *)
+Theorem C03_src_validate_options_is_model : forall opts : list nfopt,
+  Struct_Options_Proofs.interp_validate opts = validate_options opts.
+Proof. exact Struct_Options_Proofs.interp_validate_is_model. Qed.
+Print Assumptions C03_src_validate_options_is_model.
